@@ -277,8 +277,21 @@ func (m *Machine) visitInstr(fr *frame, instr ssa.Instruction) continuation {
 		*addr = zero(mustDeref(instr.Type()))
 
 	case *ssa.MakeSlice:
+		for _, sz := range []value{fr.get(instr.Len), fr.get(instr.Cap)} {
+			if sv, ok := sz.(symv); ok {
+				w := int(sv.T.Sort.W)
+				if m.decide(m.st.SLt(sv.T, m.st.BVC(w, 0))) {
+					panic(targetPanic{msg: "runtime error: makeslice: len/cap out of range", pos: m.pos(instr.Pos())})
+				}
+			} else if u, ok := intBits(sz); ok && int64(u) < 0 {
+				panic(targetPanic{msg: "runtime error: makeslice: len/cap out of range", pos: m.pos(instr.Pos())})
+			}
+		}
 		c := m.concretizeInt(fr.get(instr.Cap), 0, 64)
 		l := m.concretizeInt(fr.get(instr.Len), 0, 64)
+		if l > c {
+			panic(targetPanic{msg: "runtime error: makeslice: cap out of range", pos: m.pos(instr.Pos())})
+		}
 		sl := make([]value, c)
 		tElt := instr.Type().Underlying().(*types.Slice).Elem()
 		for i := range sl {
